@@ -945,7 +945,7 @@ func main() {
 	setN("gf_client_arp_tries", r, ok, 5)
 	r, ok = callArg("lib/arpping/arpping.go", "sendARPPing", "After", 0, 0)
 	setN("gf_arp_resend_ns", r, ok, 1e9)
-	r, ok = callArg("lib/client/dclient/dclient.go", "Run", "Sleep", 0, 0)
+	r, ok = callArg("lib/client/dclient/dclient.go", "Run", "After", 0, 0)
 	setN("gf_limiter_sleep_ns", r, ok, 20e9)
 	r, ok = callArg("lib/client/dclient/dclient.go", "New", "NewLimiter", 1, 0)
 	setN("gf_limiter_burst", r, ok, 10)
